@@ -336,9 +336,12 @@ func appReader(r *eng.Run, p *Pipe, cfg ReadCfg, o *Outcome) {
 			if cfg.OnContRead && cur != nil {
 				// The handler takes the first bytes of the fragment itself;
 				// they are message data like any other.
-				b := make([]byte, r.T.Int(sim.LAct, int(h.Length)+1))
-				n, err := io.ReadFull(src, b)
-				cur.Data = append(cur.Data, b[:n]...)
+				want := h.Length
+				if want < 0 || want > 1<<20 {
+					want = 1 << 20 // a changed tree may announce anything
+				}
+				b, err := io.ReadAll(io.LimitReader(src, int64(r.T.Int(sim.LAct, int(want)+1))))
+				cur.Data = append(cur.Data, b...)
 				r.Probe("continuation_handler_reads_body")
 				if err != nil && err != io.EOF && err != io.ErrUnexpectedEOF {
 					return err
@@ -377,9 +380,13 @@ func appReader(r *eng.Run, p *Pipe, cfg ReadCfg, o *Outcome) {
 			cur, failed := h, false
 			for !failed {
 				if cur.Length > 0 {
-					b := make([]byte, cur.Length)
-					n, err := io.ReadFull(rd, b)
-					rec.Data = append(rec.Data, b[:n]...)
+					// Never sized by the announced length: a header handed over
+					// by a changed tree may announce anything.
+					b, err := io.ReadAll(io.LimitReader(rd, cur.Length))
+					rec.Data = append(rec.Data, b...)
+					if err == nil && int64(len(b)) < cur.Length {
+						err = io.ErrUnexpectedEOF
+					}
 					if err != nil {
 						o.Open, o.Err, o.ErrAt = rec, err, "Read"
 						failed = true
